@@ -210,7 +210,7 @@ func runHistories(run *Run, cfg histCfg) (*TraceSummary, []*StoreRec) {
 					run.Evals++
 					run.Nontrivial(hashOf([]any{backend, "walkread", size, st.cur}))
 				case "walkchanges":
-					typ := pick(r, []string{"", "", "doc", "group", "folder"})
+					typ := pick(r, []string{"", "", "doc", "group", "folder", "do"}) // "do" is a prefix of "doc"
 					size := 1 + r.Intn(8)
 					var pages [][]Change
 					token := ""
